@@ -1,16 +1,16 @@
 SPECIFICATION Spec
 CONSTANTS
-  Keys = {1,2,3,4}
+  Keys = {1,2,3}
   Strict = {}
-  Kind = "mru"
-  Cap = 3
+  Kind = "tlru"
+  Cap = 2
   Vals = {1}
-  Ttls = {0}
-  TickSteps = {1}
+  Ttls = {1,3}
+  TickSteps = {1,2}
   TtlWriteOrder = FALSE
   ClearKeepsTtl = FALSE
   UpdateFilesOld = FALSE
-  EraseToListEnd = TRUE
+  EraseToListEnd = FALSE
 VIEW View
 INVARIANTS NoUB ListIsPermutation PartitionMatchesCount BackPointersInverse IndexWithinCapacity TtlListMatches TtlHeadIsMinimal
 CHECK_DEADLOCK FALSE
